@@ -487,6 +487,24 @@ impl Prop for IndexOnly {
                 }
                 Err(e) => fail!("valid-record-rejected", "read_shapes(path): {}", err_str(&e)),
             }
+            // the complete by-path one-liner (needs a .dbf): pairs come in index order too
+            if n <= 4000 {
+                std::fs::write(p.with_extension("dbf"), dbf_with_rows(n)).map_err(|e| Fail::new("disk-io", e.to_string()))?;
+                match shapefile::read(&p) {
+                    Ok(v) => {
+                        ensure!(v.len() == n, "count", "shapefile::read(path) returns {} pairs for {} index entries", v.len(), n);
+                        for (i, (s, rec)) in v.iter().enumerate() {
+                            ensure!(view_shape(s) == seq[i], "wrong-record", "shapefile::read(path): pair {} does not hold the record of index entry {} (physical order {:?})", i, i, m.order);
+                            let ri = match rec.get("idx") {
+                                Some(shapefile::dbase::FieldValue::Numeric(Some(x))) => *x as usize,
+                                _ => usize::MAX,
+                            };
+                            ensure!(ri == i, "wrong-record", "shapefile::read(path): pair {} comes with row {}", i, ri);
+                        }
+                    }
+                    Err(e) => fail!("valid-record-rejected", "shapefile::read(path): {}", err_str(&e)),
+                }
+            }
             let mut pr = shapefile::ShapeReader::from_path(&p).map_err(|e| Fail::new("open-error", err_str(&e)))?;
             ensure!(pr.shape_count().ok() == Some(n), "shape-count", "from_path: shape_count {:?} for {} index entries", pr.shape_count().ok(), n);
             let (items, over) = drain_capped(pr.iter_shapes(), n + 2);
